@@ -85,6 +85,9 @@ type spec struct {
 	Name    string   `json:"name"`
 	URL     string   `json:"url"`
 	Methods []string `json:"methods,omitempty"`
+	// Body (gateway units): the flow's processor needs the request body (DataSanitation instead of a header Filter),
+	// so the filter is also registered with the proxy's include-body map
+	Body bool `json:"needs_body,omitempty"`
 }
 
 type request struct {
